@@ -86,6 +86,10 @@ def gen_project(rng):
         if rng.random() < 0.3:
             src += "\ndef test_raises():\n    s = snapshot()\n    assert 5 == s\n    raise ValueError('boom')\n"
             feats.add("raising-test")
+        if fi == 0:
+            # one function bound to two collected names: pytest runs it once per name, and so must run_inline (seeded round 6)
+            src += "\nCALLS = []\n\n\ndef test_counted():\n    CALLS.append(1)\n    assert len(CALLS) <= snapshot()\n\n\ntest_counted_alias = test_counted\n"
+            feats.add("aliased-test-function")
         if rng.random() < 0.4:
             import black
 
